@@ -32,6 +32,10 @@ Proof.
   - intros H. inversion H; subst. rewrite N.eqb_refl. simpl. apply IH. reflexivity.
 Qed.
 
+(* List.rev is quadratic; the models that reverse whole texts use this linear version
+   (rev_fast l = rev l by List.rev_alt). *)
+Definition rev_fast {A} (l : list A) : list A := rev_append l [].
+
 (* strings.Repeat with a non-negative count (as nat). *)
 Fixpoint repeat_text (t : text) (n : nat) : text :=
   match n with O => [] | S k => t ++ repeat_text t k end.
